@@ -36,6 +36,8 @@ func init() {
 			{ID: "C03.13", Desc: "the port enters the key as it is written (:0 is not \"no port\")", Run: func(c *Ctx) { rulePortAsWritten(c, "C03.13") }, MinSites: 1},
 			{ID: "C03.14", Desc: "the host enters the key as it is written (a trailing dot is part of it)", Run: func(c *Ctx) { ruleHostAsWritten(c, "C03.14") }, MinSites: 1},
 			{ID: "C03.15", Desc: "every index read and write reachable from RoundTrip uses the result of the URL key function as its key", Run: func(c *Ctx) { ruleIndexKeyIsURLKey(c, "C03.15") }, MinSites: 3},
+			{ID: "C03.16", Desc: "the hex-digit test of the percent-encoding normaliser accepts exactly 0-9 A-F a-f", Run: func(c *Ctx) { ruleHexDigitSetExact(c, "C03.16") }, MinSites: 1},
+			{ID: "C03.17", Desc: "a URL value built inside the key function carries scheme, host, path and query", Run: func(c *Ctx) { ruleKeyReferenceKeepsEveryComponent(c, "C03.17") }, MinSites: 1},
 		},
 	})
 }
